@@ -6,9 +6,8 @@
    timeout, any interrupt instant, both variants, all logging options, any number of observers. *)
 From TT Require Import Lib.Base Model.Reactor Model.AsyncRun Spec.C14 Corr.C14 Gen.Spinnertabs Proof.C14.
 
-(* The model meets the whole statement.  wf (ForBrokenTwisted: no stage Deferred due exactly at the cut
-   instant) is where the model is claimed to be faithful to the code; the model itself meets the
-   statement for every program whatsoever (C14_holds_all). *)
+(* The model meets the whole statement, for every program of the input type (wf is trivially true since
+   round 3: ties at the cut instant, both reactor disciplines and the obligatory iterations are modelled). *)
 Theorem C14_holds : forall i : input, wf i -> spec_okb i (model i) = true.
 Proof. exact model_meets_spec_wf. Qed.
 Print Assumptions C14_holds.
@@ -28,15 +27,39 @@ Theorem C14_obs_eqb : forall a b, obs_eqb a b = true <-> alpha a = alpha b.
 Proof. exact obs_eqb_spec. Qed.
 Print Assumptions C14_obs_eqb.
 
-(* sequencing: the stages that ran are an initial segment of the plan; the first starts at 0; each further
-   one starts at exactly the instant at which its predecessor fired, and that was before the cut *)
+(* clause 1, for the model: the stage log is a walk along the plan (Spec.C14.Walk): each logged stage
+   started at the instant its predecessor completed; the walk goes on after a stage that completed before
+   the cut, stops at one due after it or never, and may go either way at one due exactly at the cut *)
+Theorem C14_walk : forall p, Walk (cut_instant p) 0 (plan p) (o_log (model p)).
+Proof. exact model_log. Qed.
+Print Assumptions C14_walk.
+
+Theorem C14_walk_checker : forall C pl t log, log_okb C t pl log = true <-> Walk C t pl log.
+Proof. exact log_okb_walk. Qed.
+Print Assumptions C14_walk_checker.
+
+(* ... in words: the stages that ran are an initial segment of the plan; the first starts at 0; each further
+   one starts at exactly the instant at which its predecessor completed - at once, or when the chain of the
+   Deferred it returned was over, not after the cut instant *)
 Theorem C14_sequencing : forall p,
   (exists rest, map fst (plan p) = map fst (o_log (model p)) ++ rest)
   /\ (forall k u l, o_log (model p) = (k, u) :: l -> k = id_setup /\ u = 0)
   /\ (forall l1 k1 t1 k2 t2 l2, o_log (model p) = l1 ++ (k1, t1) :: (k2, t2) :: l2 ->
-      exists st1, In (k1, st1) (plan p) /\ fires_at (cut_instant p) t1 st1 = Some t2 /\ t1 <= t2).
+      exists st1, In (k1, st1) (plan p)
+                  /\ ((completes t1 st1 = Immediately /\ t2 = t1)
+                      \/ (completes t1 st1 = At t2 /\ t2 <= cut_instant p))).
 Proof. exact sequencing_words. Qed.
 Print Assumptions C14_sequencing.
+
+(* a stage that hands over an ALREADY FIRED Deferred whose chain is paused on an inner one (RChained) is over
+   exactly when a stage returning the unfired inner Deferred (RLater) would be: d ticks after it started *)
+Theorem C14_chained : forall t st,
+  (forall d f, s_ret st = RLater d f \/ s_ret st = RChained d f -> completes t st = At (t + d))
+  /\ (s_ret st = RNever -> completes t st = NeverC)
+  /\ (completes t st = Immediately ->
+      s_ret st = RReturn \/ (exists c, s_ret st = RRaise c) \/ (exists f, s_ret st = RFired f)).
+Proof. exact completes_later. Qed.
+Print Assumptions C14_chained.
 
 (* ... where the plan is setUp, test and tearDown (unless setUp failed), then the cleanups LAST REGISTERED
    FIRST; and when nothing cut the run short every one of them ran and none stays registered *)
@@ -49,12 +72,19 @@ Theorem C14_lifo : forall p,
 Proof. exact (fun p => conj (plan_ids p) (cleanups_all_run p)). Qed.
 Print Assumptions C14_lifo.
 
-(* a Deferred-returning stage fires exactly d ticks after it started, strictly before the cut *)
+(* a Deferred-returning stage counts as completed within the timeout only strictly before the cut *)
 Theorem C14_fires : forall C t st t',
   fires_at C t st = Some t' ->
-  t <= t' /\ (forall d f, s_ret st = RLater d f -> t' = t + d /\ t' < C).
+  t <= t' /\ (forall d f, s_ret st = RLater d f \/ s_ret st = RChained d f -> t' = t + d /\ t' < C).
 Proof. exact fires_at_bounds. Qed.
 Print Assumptions C14_fires.
+
+(* ... so a Deferred due exactly AT the cut instant has lost, whatever the reactor still runs afterwards *)
+Theorem C14_tie_loses : forall p pl1 L tk k st r,
+  plan p = pl1 ++ (k, st) :: r -> Go (cut_instant p) 0 pl1 L tk -> completes tk st = At (cut_instant p) ->
+  completed p = false.
+Proof. exact tie_loses. Qed.
+Print Assumptions C14_tie_loses.
 
 Theorem C14_one_outcome : forall p,
   exists x, o_events (model p) = [StartTest; x; StopTest] /\ In x [AddSuccess; AddError; AddFailure; AddSkip].
@@ -110,27 +140,38 @@ Theorem C14_tab_iterations :
 Proof. exact (conj tab_plain_is_spinner_default tab_iterations_le). Qed.
 Print Assumptions C14_tab_iterations.
 
-(* the ForBrokenTwisted variant never finds more junk than the plain one in the same situation *)
-Theorem C14_variants : forall p q m,
-  i_broken p = true -> i_broken q = false -> incl (junk_of p m) (junk_of q m).
+(* the ForBrokenTwisted variant never leaves more leftover calls than the plain one in the same situation *)
+Theorem C14_variants : forall m,
+  incl (m_pending (settle broken_runner_iterations m)) (m_pending (settle runner_iterations m)).
 Proof. exact broken_shakes_out. Qed.
 Print Assumptions C14_variants.
 
 (* non-vacuity: a failing asynchronous body, an asynchronous tearDown, two cleanups of which the first
    registered raises KeyboardInterrupt (the F11 shape): everything runs, in order, error reported; the same
-   program cut by a timeout of 3; a clean asynchronous test that succeeds; a leftover delayed call *)
+   program cut by a timeout of 3; a clean asynchronous test that succeeds; a leftover delayed call; a cleanup
+   that hands over a fired-but-paused Deferred is waited for; a test whose Deferred is due exactly at the
+   timeout: error - on a batch reactor the stages behind it still run (at instant 9), the verdict stands *)
 Example C14_example :
   let st r := mkStage r [] false false false in
-  let p T := mkProgram false true true 1 T None (st RReturn) (st (RLater 2 (Some CFail))) (st (RLater 2 None))
+  let p T := mkProgram false false true true 1 T None (st RReturn) (st (RLater 2 (Some CFail))) (st (RLater 2 None))
                        [st (RRaise CKbd); st (RLater 1 None)] in
+  let tie batch := mkProgram false batch true true 0 9 None (st RReturn) (st (RLater 9 None)) (st RReturn)
+                             [st (RFired None)] in
   wf (p 9)
   /\ o_log (model (p 9)) = [(0, 0); (1, 0); (2, 2); (11, 4); (10, 5)]
   /\ o_events (model (p 9)) = [StartTest; AddError; StopTest]
   /\ o_raised (model (p 9)) = Some CKbd /\ o_cleanups_left (model (p 9)) = 0
   /\ o_log (model (p 3)) = [(0, 0); (1, 0); (2, 2)]
   /\ o_events (model (p 3)) = [StartTest; AddError; StopTest] /\ o_cleanups_left (model (p 3)) = 2
-  /\ o_events (model (mkProgram true false false 0 9 (Some 20) (st RReturn) (st (RLater 8 None)) (st RReturn)
+  /\ o_events (model (mkProgram true false false false 0 9 (Some 20) (st RReturn) (st (RLater 8 None)) (st RReturn)
                          [st (RLater 0 None)])) = [StartTest; AddSuccess; StopTest]
-  /\ o_events (model (mkProgram false true true 0 9 None (st RReturn) (mkStage RReturn [3] false false false)
-                         (st RReturn) [])) = [StartTest; AddError; StopTest].
+  /\ o_events (model (mkProgram false false true true 0 9 None (st RReturn) (mkStage RReturn [3] false false false)
+                         (st RReturn) [])) = [StartTest; AddError; StopTest]
+  /\ (let q := mkProgram false true true true 0 9 None (st RReturn) (st RReturn) (st RReturn)
+                         [st RReturn; st (RChained 2 None)] in
+      o_log (model q) = [(0, 0); (1, 0); (2, 0); (11, 0); (10, 2)]
+      /\ o_events (model q) = [StartTest; AddSuccess; StopTest])
+  /\ o_log (model (tie false)) = [(0, 0); (1, 0)] /\ o_events (model (tie false)) = [StartTest; AddError; StopTest]
+  /\ o_log (model (tie true)) = [(0, 0); (1, 0); (2, 9); (10, 9)]
+  /\ o_events (model (tie true)) = [StartTest; AddError; StopTest] /\ completed (tie true) = false.
 Proof. vm_compute. repeat split. Qed.
